@@ -24,6 +24,54 @@ def parse(text, cls=models.File, acc=True):
         return PARSER.parse(realize(text), cls, auto_claim_comments=acc)
 
 
+BLOCK_PATTERNS = ['M', 'L', 'H', 'HL', 'LH', 'HLL', 'LHH', 'MHL']
+
+
+def block_bounds(lf):
+    """Smallest and largest size a block of a multi-block store can have at load factor lf (sizes in (lf//2, 2*lf))."""
+    return lf // 2 + 1, 2 * lf - 1
+
+
+def reblock(store, lf, pat, first):
+    """Re-partitions `store` into blocks for load factor `lf`: the first block has lo+first tokens, the following ones cycle
+    through BLOCK_PATTERNS[pat] (L = smallest legal size, M = lf, H = largest legal size).  Every layout whose block
+    sizes all lie in (lf//2, 2*lf) is reachable through the public API (grow / shrink each block of a from_tokens store
+    with same-block edits), so an edit applied to such a layout is one step of some real history.  Untraced."""
+    from symx.env import set_load_factor
+    from autobean_refactor import token_store as ts
+    set_load_factor(lf)
+    lo, hi = block_bounds(lf)
+    toks = list(store)
+    for t in toks:
+        t.store_handle = None
+    pattern = BLOCK_PATTERNS[pat]
+    sizes = []
+    remaining = len(toks)
+    k = 0
+    while remaining:
+        if not sizes:
+            sz = lo + first
+        else:
+            sz = {'L': lo, 'M': lf, 'H': hi}[pattern[k % len(pattern)]]
+            k += 1
+        sz = min(sz, remaining)
+        rest = remaining - sz
+        if 0 < rest < lo:           # the tail is too small for a block of its own
+            sz = remaining if remaining <= hi else remaining - lo
+        sizes.append(sz)
+        remaining -= sz
+    blocks = []
+    pos = 0
+    for idx, sz in enumerate(sizes):
+        blocks.append(ts._StoreBlock.from_tokens(toks[pos:pos + sz], store, idx))
+        pos += sz
+    if not blocks:
+        blocks = [ts._StoreBlock(store, 0, [])]
+    store._blocks[:] = blocks
+    store._len = len(toks)
+    return sizes
+
+
 def text_of(model):
     return ''.join(t.raw_text for t in model.tokens)
 
